@@ -2,7 +2,11 @@ NOTES = (
     "Technique family: static analysis only. Every check re-parses /repo/formulae/**/*.py on each run and "
     "decides repository-specific rules on extracted program models; exit 2 + ANALYSIS-ERROR means the "
     "analysis itself is broken (anchor vanished, unmodelled idiom, instance count below floor). "
-    "Set FORMULAE_SRC=<dir> to analyse another tree (used for seeded variants)."
+    "Set FORMULAE_SRC=<dir> to analyse another tree (used for seeded variants). Before the rules run, the parsed tree is "
+    "normalised relative to a snapshot of the tree the rules were written against (sa/reference_src): new helper functions "
+    "are inlined, new immutable constants propagated, new base classes flattened, and a function whose canonical form "
+    "(sa/canon.py: semantics-preserving source-to-source rewrites on the AST/CFG) equals the snapshot's is analysed in its "
+    "snapshot form; the snapshot only proves equivalences, the verdict is always about /repo's current tree."
 )
 COMMON_NOTE = (
     "Trusted base: CPython's ast module, the hand-written catalogue of numpy/pandas/itertools semantics in "
@@ -31,7 +35,7 @@ CHECKS = [
         "abstract interpretation (every operand shape the property quantifies over is supported; the 12 shapes that were "
         "unsupported on the pinned tree were repaired in /repo); expansion semantics: every overload is summarised by abstract "
         "interpretation in a term-set domain and compared with the documented Wilkinson-Rogers/lme4 expansion for 60 operand "
-        "shapes (union, difference, a:b, a*b, a/b, **n, (e|g), ~); resolver operator map; linear use of mutated sub-results; "
+        "shapes (union, difference, a:b, a*b, a/b, **n, (e|g), ~); resolver operator map decided by partial evaluation of the dispatch per token kind (if-chain or lookup table alike); linear use of mutated sub-results; one-shot iterators consumed once (CFG reachability between consumers); "
         "duplicate-free containers. Not decided: term identity of call atoms beyond the protocol (value semantics of arguments).",
         "design_ref": "DESIGN.md section 3, C02 (R2.1-R2.5); section 7.2 (R2.6); section 4 F2-F5",
         "note": COMMON_NOTE,
@@ -51,17 +55,17 @@ CHECKS = [
     },
     {
         "property_id": "C17",
-        "text": "Slice bookkeeping is written at three sites; the running-offset idiom is checked at each (offset starts at 0, same iteration order as the stacked blocks, slice(start, start+delta) under the term name, unconditional start += delta, delta = width of the very array stacked for that term - the freshly evaluated one at prediction). Also: label order = stacking order, every view reads the one design_matrix, unknown names are refused, the common matrix re-stacks the same terms in training order under the shared slices, printing has no assert/raise and uses the effect's real column count, one frame reaches all three matrices. Not decided: uniqueness of labels (depends on name injectivity, see C12) and numerical equality of the views.",
+        "text": "Slice bookkeeping is written at three sites; each loop body is evaluated abstractly in a domain of integer-linear / if-then-else / slice values (no solver): the stored value must be slice(S, S + W) under the term name for a loop-carried offset S that is 0 on entry and becomes S + W, W being the column count of the very block stacked for that term in the same iteration (the freshly evaluated one at prediction), same iteration order as the stacked blocks, no break/return. Also: label order = stacking order, every view reads the one design_matrix, unknown names are refused, the common matrix re-stacks the same terms in training order under the shared slices, printing has no assert/raise and uses the effect's real column count, one frame reaches all three matrices. Not decided: uniqueness of labels (depends on name injectivity, see C12) and numerical equality of the views.",
         "design_ref": 'DESIGN.md section 3, C17 (R17.1-R17.6); section 4 F12',
         "note": COMMON_NOTE,
-        "technique": 'structural idiom check on AST + CFG dominance at the three slice-building sites; sibling agreement; who-may-write',
+        "technique": 'abstract interpretation of the three slice-building loop bodies in a linear/if-then-else/slice value domain; CFG dominance; sibling agreement; who-may-write',
     },
     {
         "property_id": "C09",
-        "text": "Policy skeleton and the 'used variables' computation: na_action validated by a dominating raising guard over a literal set; exhaustive if/elif/else with literal-domain agreement (pass keeps, drop re-binds to data[~incomplete_rows], error raises) guarded by 'at least one incomplete row'; NA mask computed on the var_names column subset before anything is evaluated; one frame for all three matrices; var_names completeness by holder coverage and visitor coverage (child-bearing fields of the lazy call tree derived from inferred field types, every one traversed). Not decided: where NaN lands under 'pass' and equality with the run on the reduced frame (runtime relations).",
+        "text": "Policy skeleton and the 'used variables' computation: design_matrices (new helpers inlined) is partially evaluated for each value of na_action and evaluated abstractly: any other value raises before every other effect; under 'pass' the column selection description.var_names & data.columns reaches DesignMatrices unchanged; under 'drop' it is that frame filtered positionally by the negated any-missing mask of the same frame (unfiltered only on the no-missing path; a label-based drop is reported); 'error' raises ValueError exactly under the any-missing condition; one frame for all three matrices; the set of used variables is decided by a union algebra over the var_names functions and var_names completeness by holder coverage and visitor coverage (child-bearing fields of the lazy call tree derived from inferred field types, every one traversed). Not decided: where NaN lands under 'pass' and equality with the run on the reduced frame (runtime relations).",
         "design_ref": 'DESIGN.md section 3, C09 (R9.1-R9.4)',
         "note": COMMON_NOTE,
-        "technique": 'CFG dominance / reaching definitions in design_matrices; literal-domain agreement; visitor-coverage check driven by the type inference',
+        "technique": 'partial evaluation of design_matrices per option value + abstract interpretation of the frame that reaches the constructor; union algebra for set-valued functions; visitor-coverage check driven by the type inference',
     },
     {
         "property_id": "C10",
@@ -72,10 +76,10 @@ CHECKS = [
     },
     {
         "property_id": "C12",
-        "text": "Grammar/table agreement and naming for Python expressions inside calls: the grammar extracted for C01, restricted to the operator kinds CallResolver accepts, is compared pairwise with Python's precedence and associativity (3 genuine divergences recorded as known findings: ** left-associative, unary sign above **, comparison chains left-nested); scanner lexeme -> token kind -> operator.<fn> -> printed symbol composes to the identity and each fn is Python's function for that operator; argument plumbing; {e} = I(e) and I is the identity; literal conversion; name field coverage plus an injectivity detector (known finding: no parentheses in names). Not decided: numerical equality with eval().",
+        "text": "Grammar/table agreement and naming for Python expressions inside calls: the grammar extracted for C01, restricted to the operator kinds CallResolver accepts, is compared pairwise with Python's precedence and associativity (3 genuine divergences recorded as known findings: ** left-associative, unary sign above **, comparison chains left-nested); scanner lexeme -> token kind -> operator.<fn> -> printed symbol composes to the identity and each fn is Python's function for that operator; argument plumbing; {e} = I(e) and I is the identity; literal conversion (abstract evaluation of the scanner's number helpers: float exactly on the paths that consumed a '.'); name field coverage plus an injectivity detector; the operator printer's precedence table agrees with the extracted grammar (parentheses kept where needed; the defect found here was repaired in /repo). Not decided: numerical equality with eval().",
         "design_ref": 'DESIGN.md section 3, C12 (R12.1-R12.6); section 4 F10, F11',
         "note": COMMON_NOTE,
-        "technique": 'extracted-grammar vs reference-table comparison; three-table agreement; AST structural rules',
+        "technique": 'extracted-grammar vs reference-table comparison; three-table agreement; abstract interpretation of scanner helpers; AST structural rules',
     },
     {
         "property_id": "C06",
@@ -86,7 +90,7 @@ CHECKS = [
     },
     {
         "property_id": "C07",
-        "text": "Isolation as an effects property: every attribute write reachable from evaluate_new_data targets a fresh/under-construction object, a stateful transform under its fit-once regime, or the write-once transform slot; every in-place array/container mutation on that path and in the registry targets an object created in the same call (reaching definitions + freshness lattice); the inventory of long-lived state (module/class-level mutables, their writers, mutable defaults, global, memoisation decorators) is closed; fitted state is per instance; the caller's frame and namespace are never written; a Model is built per design; no randomness and no set-order dependence of labels/columns. Not decided: numerical equality across histories (follows only if user functions are pure).",
+        "text": "Isolation as an effects property: every attribute write reachable from evaluate_new_data targets a fresh/under-construction object, a stateful transform under its fit-once regime, or the write-once transform slot; every in-place array/container mutation on that path and in the registry targets an object created in the same call (reaching definitions + freshness lattice); the inventory of long-lived state (module/class-level mutables, their writers, mutable defaults, global, memoisation decorators) is closed; fitted state is per instance; the caller's frame and namespace are never written (only new frames reach the design, on every path of every na_action; user-supplied encoding objects are written by their constructor only); a Model is built per design; no randomness and no set-order dependence of labels/columns. Not decided: numerical equality across histories (follows only if user functions are pure).",
         "design_ref": 'DESIGN.md section 3, C07 (R7.1-R7.7)',
         "note": COMMON_NOTE,
         "technique": 'effect analysis over the typed call graph; reaching definitions on the CFG + freshness lattice; who-may-write inventory with positive controls',
@@ -121,7 +125,7 @@ CHECKS = [
     },
     {
         "property_id": "C08",
-        "text": 'Order- and label-independence clauses: canonical level order wherever levels or defaults are picked; permutation-invariant fitting (no positional row access or order-dependent operation on row-ordered values in transforms, registry functions and evaluation code; row-ordered taint that stops at order-invariant reductions); by-name column access only; irrelevant columns cut first and .index read only under len(); the row filter mask comes from the very frame it filters. Not decided: that pandas/numpy primitives are themselves equivariant; floating-point summation order.',
+        "text": 'Order- and label-independence clauses: canonical level order wherever levels or defaults are picked; permutation-invariant fitting (no positional row access or order-dependent operation on row-ordered values in transforms, registry functions and evaluation code; row-ordered taint that stops at order-invariant reductions); by-name column access only; irrelevant columns cut first and .index read only under len(); the row filter is the negated mask of the very frame it filters (decided on the abstract value of the frame handed to the design), never a label-based drop. Not decided: that pandas/numpy primitives are themselves equivariant; floating-point summation order.',
         "design_ref": 'DESIGN.md section 3, C08 (R8.1-R8.5)',
         "note": COMMON_NOTE,
         "technique": 'row-ordered taint with reduction barrier; positional-access lint; reaching-definition identity; order-kind lattice',
